@@ -36,6 +36,8 @@ A program is described by a tuple (picklable, JSON-able):
   ('chain', gctx, gchain, hctx, hbody, position)
   ('fact', gctx, fbody, layout, ncallees, variant)
   ('pin', fmt, mode, who, position)
+  ('argnest', cctx, bctx, position)     an inlined call nested in an argument of an inlined call
+  ('two', gctx, body, layout)           two callees: a local of one named like a free variable of the other
 and `build(desc)` returns its source text.
 """
 
@@ -317,8 +319,90 @@ INPUTS_PIN = [
 ]
 
 
+# ---- extra positions of the pair grammar, enumerated with a small callee set only ----------
+# a context constructor whose argument is a local variable with a statically known value:
+# lift_context must not hoist it above the assignment it depends on
+EXTRA_POSITIONS = {
+    'loopctx_const': lambda a: _pos(['p = 3', 'z = 0', 'for x in us:', '    with fp.MPFloatContext(p):',
+                                     f'        z = z + {a["cx"]}']),
+    'loopctx_inner': lambda a: _pos(['z = 0', 'for x in us:', '    p = 3', '    with fp.MPFloatContext(p):',
+                                     f'        z = z + {a["cx"]}']),
+    'ctx_var': lambda a: _pos(['p = 3', 'with fp.MPFloatContext(p, fp.RM.RTZ):', f'    z = {a["c1"]}']),
+    'ctx_var2': lambda a: _pos(['p = 3', 'q = p + 2', 'with fp.IEEEContext(q, 16):', f'    z = {a["c1"]}']),
+}
+POSITIONS.update(EXTRA_POSITIONS)
+
+
+def all_extras() -> list[tuple]:
+    return [('pair', gctx, gbody, position, 'A0')
+            for position in EXTRA_POSITIONS for gbody in ('arith', 'ownwith') for gctx in ('none', 'decl')]
+
+
+# ---- argnest family: an argument of an inlined call is itself an inlined call that writes the
+# shared list, while an earlier / later argument reads that list ---------------------------------
+
+ARGNEST_POSITIONS = {
+    'read_bump': (['z = comb(us[0], b(u, us))'], RET),
+    'bump_read': (['z = comb(b(u, us), us[0])'], RET),
+    'three': (['z = comb3(us[0], b(u, us), us[0])'], RET),
+    'deep': (['z = comb(us[0], comb(us[1], b(u, us)))'], RET),
+    'deep_first': (['z = comb(comb(us[0], b(u, us)), us[0])'], RET),
+    'loop': (['z = 0', 'for x in us:', '    z = z + comb(us[0], b(x, us))'], RET),
+    'ret': ([], 'return (comb(us[0], b(u, us)), us[0] * KF, us[1])'),
+}
+ARGNEST_OUTER = ('comb', 'comb3')
+
+
+def _build_argnest(desc) -> str:
+    _, cctx, bctx, position = desc
+    cdeco = '@fp.fpy' if CALLEE_CTX[cctx] is None else f'@fp.fpy(ctx={CALLEE_CTX[cctx]})'
+    src = f'K = {K_VALUE}\nKF = {KF_VALUE}\nKG = {KG_VALUE}\n\n'
+    src += _callee('b', bctx, *BODIES['mut']) + '\n'
+    src += f'{cdeco}\ndef comb(p: fp.Real, q: fp.Real) -> fp.Real:\n    return p * 2 + q\n\n'
+    src += f'{cdeco}\ndef comb3(p: fp.Real, q: fp.Real, r: fp.Real) -> fp.Real:\n    return p * 2 + q * r\n\n'
+    lines, ret = ARGNEST_POSITIONS[position]
+    body = '\n'.join('    ' + ln for ln in lines + [ret])
+    return src + f'@fp.fpy\ndef f(u: fp.Real, v: fp.Real, us: list[fp.Real], n: fp.Real):\n{body}\n'
+
+
+def all_argnests() -> list[tuple]:
+    return [('argnest', cctx, bctx, position)
+            for position in ARGNEST_POSITIONS for cctx in CALLEE_CTX for bctx in ('none', 'decl')]
+
+
+# ---- two-callee family: a local of one callee is named like a free variable of another
+# function of the program (the other callee's K, or the caller's KF) -------------------------------
+
+TWO_BODIES = {
+    'localK': ['K = x * x', 'return K + x'],
+    'localKF': ['K = x * x', 'KF = K + x', 'return KF * x'],
+}
+TWO_LAYOUTS = {
+    'one_stmt': ['z = g1(u, us) + g2(v, us)'],
+    'one_stmt_rev': ['z = g2(v, us) + g1(u, us)'],
+    'two_stmts': ['a = g1(u, us)', 'z = a * g2(v, us)'],
+}
+
+
+def _build_two(desc) -> str:
+    _, gctx, body, layout = desc
+    src = f'K = {K_VALUE}\nKF = {KF_VALUE}\nKG = {KG_VALUE}\n\n'
+    src += _callee('g1', gctx, ('x', 'xs'), TWO_BODIES[body]) + '\n'
+    src += _callee('g2', gctx, *BODIES['glob']) + '\n'
+    cbody = '\n'.join('    ' + ln for ln in TWO_LAYOUTS[layout] + [RET])
+    return src + f'@fp.fpy\ndef f(u: fp.Real, v: fp.Real, us: list[fp.Real], n: fp.Real):\n{cbody}\n'
+
+
+def all_twos() -> list[tuple]:
+    return [('two', gctx, body, layout) for layout in TWO_LAYOUTS for body in TWO_BODIES for gctx in CALLEE_CTX]
+
+
 def build(desc) -> str:
     """Source text of the program `desc` (module body after the loader prelude)."""
+    if desc[0] == 'argnest':
+        return _build_argnest(desc)
+    if desc[0] == 'two':
+        return _build_two(desc)
     if desc[0] == 'fact':
         return _build_fact(desc)
     if desc[0] == 'pin':
@@ -343,6 +427,14 @@ def describe(desc) -> dict:
         _, gctx, gbody, position, argform = desc
         return {'position': position, 'inner': '-', 'effect': effect_of([gbody]),
                 'callee': gbody, 'callee_ctx': gctx, 'args': argform}
+    if desc[0] == 'argnest':
+        _, cctx, bctx, position = desc
+        return {'position': f'argnest_{position}', 'inner': '-', 'effect': 'mutates-arg',
+                'callee': 'comb(.., b(..))', 'callee_ctx': f'{cctx}>{bctx}', 'args': 'A0'}
+    if desc[0] == 'two':
+        _, gctx, body, layout = desc
+        return {'position': f'two_{layout}', 'inner': body, 'effect': 'reads-global',
+                'callee': f'{body}+glob', 'callee_ctx': gctx, 'args': 'A0'}
     if desc[0] == 'pin':
         _, fmt, mode, who, position = desc
         return {'position': f'pin_{position}', 'inner': f'{who}-pins', 'effect': 'pure',
